@@ -524,8 +524,8 @@ def run(ctx):
     ctx.rule = ("case = (built-in config, 0..3 YAML files in order, explicit overrides with DefaultValue marks) or a history of merges / "
                 "builders; distinct = distinct (sources, overrides) documents or histories by content hash; non-trivial = at least one source")
     part_a(ctx, ctx.pick(1500, 40000))
-    part_b(ctx, ctx.pick(300, 6000))
-    part_c(ctx, ctx.pick(60, 1500))
+    part_b(ctx, ctx.pick(600, 6000))
+    part_c(ctx, ctx.pick(150, 1500))
     part_d(ctx, ctx.pick(96, 800))
     ctx.merge_counts(CONTRACT_EVALS)
     ctx.require("deep_update.post", 1000)
